@@ -213,9 +213,9 @@ fn session_with(rt: &tokio::runtime::Runtime, rng: &mut Rng, start: (u64, u64), 
                 let mut h = hs.lock().expect("hs");
                 h.6 += 1;
                 progress(|| format!("poll_chunks session, request #{} {}", h.6, req.raw_target));
-                if h.6 > 20_000 {
+                if h.6 > 5_000 {
                     // a poller that never stops asking: cut it off (every further request fails) and say so
-                    if h.6 == 20_001 { log.lock().expect("log").push(json!({"ev": "runaway", "requests": h.6})); }
+                    if h.6 == 5_001 { log.lock().expect("log").push(json!({"ev": "runaway", "requests": h.6})); }
                     return Some(Resp::xml(500, "<Error><Code>Runaway</Code></Error>".into()));
                 }
                 h.0 += drain();
@@ -451,7 +451,7 @@ fn scripted_session(rt: &tokio::runtime::Runtime, start: (u64, u64), full: u64, 
                 drain();
                 let k = { let mut c = counter.lock().expect("c"); *c += 1; *c - 1 };
                 let p = match plan.get(k) { Some(p) => p.clone(), None => { *extra.lock().expect("e") += 1; ReqPlan::default() } };
-                if k > 20_000 { if k == 20_001 { log.lock().expect("log").push(json!({"ev": "runaway", "requests": k})); } return Some(Resp::xml(500, "<Error><Code>Runaway</Code></Error>".into())); }
+                if k > 5_000 { if k == 5_001 { log.lock().expect("log").push(json!({"ev": "runaway", "requests": k})); } return Some(Resp::xml(500, "<Error><Code>Runaway</Code></Error>".into())); }
                 if p.stop { let _ = stop_tx.send(true); log.lock().expect("log").push(json!({"ev": "stop"})); }
                 if p.drop { *rx_cell.lock().expect("rx") = None; log.lock().expect("log").push(json!({"ev": "drop"})); }
                 for _ in 0..p.uploads { let mut w = world.lock().expect("world"); let nx = if w.up == (0, 0) { (1, 1) } else { succ(w.up) }; w.upload(s, nx); log.lock().expect("log").push(json!({"ev": "upload", "vol": nx.0, "seq": nx.1, "rads": []})); }
